@@ -70,6 +70,11 @@ class BlockNormalizer(Visitor):
                 new_statements.append(block)
         else:
             new_statements = list(self.iter_unroll_blocks(visited_statements))
+        if obj.subcircuit:
+            # Keep the (normalized) subcircuit as a unit of its own
+            return BlockStatement(
+                subcircuit=True, iterations=obj.iterations, statements=new_statements
+            )
         new_block = BlockStatement(statements=new_statements)
         return new_block
 
@@ -110,7 +115,7 @@ class UnrollIterator(Visitor):
         yield obj
 
     def visit_BlockStatement(self, obj):
-        if obj.parallel:
+        if obj.parallel or obj.subcircuit:
             # This is ok in iter_unroll_blocks but would be an error
             # in iter_chunk_blocks.
             yield obj
